@@ -360,23 +360,46 @@ func (m *vcModel) deleteWhere(t *vcTable, match func(row any) bool) (*vcModel, [
 		}
 	}
 	next.rows[t.Go] = keep
-	if !next.cascade(t, removedIDs, 0) {
-		return m, nil, false
+	deleted := map[string]map[int64]bool{}
+	next.cascade(t, removedIDs, deleted, 0)
+	// NO ACTION / RESTRICT references are checked at the end of the statement, after the cascades:
+	// the delete is refused when a surviving row still references a deleted row
+	for _, t2 := range vcTables {
+		for _, fk := range t2.FKs {
+			act := vcstrings.ToUpper(fk.OnDelete)
+			if act == "CASCADE" || act == "SET NULL" {
+				continue
+			}
+			for _, r := range next.rows[t2.Go] {
+				if key, valid := vcFKGet(r, fk.Field); valid && deleted[fk.Target][key] {
+					return m, nil, false
+				}
+			}
+		}
 	}
 	return next, removed, true
 }
 
-func (m *vcModel) cascade(target *vcTable, ids []int64, depth int) bool {
+// cascade applies the ON DELETE CASCADE / SET NULL actions for the deleted ids of target (recursively),
+// recording every deleted id per table.
+func (m *vcModel) cascade(target *vcTable, ids []int64, deleted map[string]map[int64]bool, depth int) {
 	if len(ids) == 0 || depth > 20 {
-		return true
+		return
 	}
-	isDel := map[int64]bool{}
+	if deleted[target.Go] == nil {
+		deleted[target.Go] = map[int64]bool{}
+	}
 	for _, id := range ids {
-		isDel[id] = true
+		deleted[target.Go][id] = true
 	}
+	isDel := deleted[target.Go]
 	for _, t2 := range vcTables {
 		for _, fk := range t2.FKs {
 			if fk.Target != target.Go {
+				continue
+			}
+			act := vcstrings.ToUpper(fk.OnDelete)
+			if act != "CASCADE" && act != "SET NULL" {
 				continue
 			}
 			var keep []any
@@ -387,25 +410,19 @@ func (m *vcModel) cascade(target *vcTable, ids []int64, depth int) bool {
 					keep = append(keep, r)
 					continue
 				}
-				switch vcstrings.ToUpper(fk.OnDelete) {
-				case "CASCADE":
+				if act == "CASCADE" {
 					if t2.Primary {
 						gone = append(gone, vcID(t2, r))
 					}
-				case "SET NULL":
-					field := fk.Field
-					keep = append(keep, vcSetField(r, field, func(f vcreflect.Value) { vcFKSet(f, 0, false) }))
-				default:
-					return false // referenced: the delete is refused
+					continue
 				}
+				field := fk.Field
+				keep = append(keep, vcSetField(r, field, func(f vcreflect.Value) { vcFKSet(f, 0, false) }))
 			}
 			m.rows[t2.Go] = keep
-			if !m.cascade(t2, gone, depth+1) {
-				return false
-			}
+			m.cascade(t2, gone, deleted, depth+1)
 		}
 	}
-	return true
 }
 
 // ---------------------------------------------------------------------------
